@@ -60,6 +60,20 @@ def pooled_combinators(job):
         return out
     out["gen"] = {"asked": job["n"] + 3, "got": len(agents), "distinct": len({tuple(a.position) for a in agents}), "log": [(a, b) for a, b, _ in pool.POOL_LOG],
                   "in_bounds": all(-5.0 <= a.position[0] <= 5.0 and 0.0 <= a.position[1] <= 1.0 for a in agents)}
+    # ---- two consecutive pooled rounds vs the same two rounds in serial mode from the same seed (`generatePooled_perm`: each pooled round = the serial round
+    #      up to order — the random stream is consumed by the parent, whatever the mode and the worker count)
+    rounds = {}
+    for m in ("serial", mode):
+        np.random.seed(job["seed"] % (2 ** 31))
+        o2 = Scripted(BaseOptimizationConfig(population_size=job["n"], max_cycles=1))
+        o2._task = t
+        o2._mode, o2._workers = ModeSolver(m), workers
+        try:
+            rounds[m] = [sorted(tuple(bits(c) for c in a.position) + (bits(a.cost),) for a in o2._generate_agents(job["n"] + 1)) for _ in range(2)]
+        except Exception as e:  # noqa
+            rounds[m] = f"{type(e).__name__}: {e}"
+    out["gen"]["rounds_equal_serial"] = rounds["serial"] == rounds[mode]
+    out["gen"]["second_round_repeats_first"] = isinstance(rounds[mode], list) and rounds[mode][0] == rounds[mode][1]
     return out
 
 
@@ -67,13 +81,18 @@ def run(ctx):
     ctx.prove(MODULES)
     ctx.suites_run.append("S-pool")
     rng = ctx.rng
-    ctx.rule("pooled combinators (_greedy_select_population, _generate_agents) on a scripted optimizer under seeded permutations of the completion order × workers {1,2,3,4,8,16} × thread/process; "
+    ctx.rule("pooled combinators (_greedy_select_population, _generate_agents) on a scripted optimizer under seeded permutations of the completion order × workers {1,2,3,4,8,16} × thread/process (every pair covered), two consecutive pooled rounds of _generate_agents compared with the same two serial rounds; "
              "full runs of real optimizers in thread/process mode with permuted and with real completion order, half of the thread runs with injected per-evaluation delays (overlapping evaluations): all C01/C02/C03/C10 oracles, multiset of initial positions pairwise distinct, one agent per pooled evaluation; "
              "a case = one pooled call or run; non-trivial = ≥ 2 workers and ≥ 2 pooled evaluations")
     # ---- pooled combinators under permutations
     cj = []
     for _ in range(120 if not ctx.thorough else 1200):
         cj.append({"seed": rng.randrange(10 ** 6), "mode": rng.choice(["thread", "thread", "process"]), "workers": rng.choice([1, 2, 3, 4, 8, 16]), "n": rng.choice([1, 2, 3, 5, 8, 13])})
+    # every (mode, worker count) pair at least twice, the single-worker pools included
+    for m in ("thread", "process"):
+        for w in (1, 2, 3, 4, 8, 16):
+            for n in (2, 5):
+                cj.append({"seed": rng.randrange(10 ** 6), "mode": m, "workers": w, "n": n})
     req, meta = [], []
     for r in pmap(pooled_combinators, cj):
         j = r["job"]
@@ -90,6 +109,10 @@ def run(ctx):
             ctx.fail(f"C11/_generate_agents/initial-points-not-pairwise-distinct/{j['mode']}", f"{g['distinct']} distinct of {g['got']}", "S-pool", {"job": j})
         elif not g["in_bounds"]:
             ctx.fail("C11/_generate_agents/out-of-bounds", f"{g}", "S-pool", {"job": j})
+        elif not g.get("rounds_equal_serial", True):
+            ctx.fail(f"C11/_generate_agents/pooled-rounds-differ-from-serial-rounds/{j['mode']}/w{'1' if j['workers'] == 1 else 'n'}",
+                     f"two consecutive rounds of {j['n'] + 1} agents, {j['workers']} workers, {j['mode']} mode: not the serial rounds up to order"
+                     + (" (the second round repeats the first: the parent's random stream did not advance)" if g.get("second_round_repeats_first") else ""), "S-pool", {"job": j})
         for sub, ret, order in r.get("greedy_log", []):
             if sub != ret or sub != j["n"]:
                 ctx.fail("C11/get_pool_results/evaluation-lost-or-duplicated", f"{sub} submitted, {ret} returned for {j['n']} agents", "S-pool", {"job": j})
